@@ -664,8 +664,8 @@ pub fn property() -> Property {
         subs: vec![prop_sub(
             "hostile",
             "random bytes, random records with valid-looking headers, and valid traffic (preamble+noise+body+next request) with 0..3 mutations (header field overwrite incl. version/type/length, byte flips, length prefixes up to 2^31-1, insertions, truncation) x buffer sizes 24..8192 x 4 chunkings x {buffered, direct} stream reading, parse(0) calls interleaved, conversions probed on clones at generated call indices, repeated calls after done/fatal; non-trivial = more than one record's worth of input processed in >=2 calls and the run got past the first header; distinct = hash of the case",
-            20_000,
-            600_000,
+            60_000,
+            1_500_000,
             |_| case_strategy(),
             test,
         )],
